@@ -97,15 +97,96 @@ def _worker(job):
         return {"function": key, "status": "crash", "traceback": traceback.format_exc(), "obligations": [], "vcs": 0, "vcs_discharged": 0}
 
 
+def _path_worker(task):
+    """One path of one function/lemma from a decision prefix; returns the partial report (with .alts)."""
+    kind, key, modnames, tier, pid, prefix = task
+    try:
+        sys.setrecursionlimit(20000)
+        contracts = V.load_contracts(modnames)
+        if not getattr(_path_worker, "_kf", False):
+            apply_known(contracts, pid, load_known())
+            _path_worker._kf = True
+        if kind == "fn":
+            rep = V.verify_function(key, contracts, tier=tier, start=prefix, one_path=True)
+        else:
+            rep = V.verify_lemma(key, tier=tier, start=prefix, one_path=True)
+        j = rep.to_json()
+        j["alts"] = rep.alts
+        return (kind, key, j)
+    except Exception:
+        return (kind, key, {"function": key, "status": "crash", "traceback": traceback.format_exc(), "obligations": [], "vcs": 0, "vcs_discharged": 0, "alts": []})
+
+
+def _cache_path(kind, key, tier):
+    import hashlib
+
+    ck = hashlib.sha256(f"{tree_hash()}|{kind}|{key}|{tier}".encode()).hexdigest()[:32]
+    return os.path.join(VERIF, ".cache", ck + ".json")
+
+
 def run_pool(jobs, nproc):
+    """Path-level parallel exploration: every (function, decision prefix) is one task; the alternatives a task
+    discovers are scheduled as new tasks.  Verdicts are memoised per function under .cache/ (content hash of
+    repo working tree + engine + contracts + findings + tier)."""
     import multiprocessing as mp
 
     if not jobs:
         return []
-    if nproc <= 1 or len(jobs) == 1:
-        return [_worker(j) for j in jobs]
-    with mp.get_context("fork").Pool(min(nproc, len(jobs))) as pool:
-        return pool.map(_worker, jobs, chunksize=1)
+    results: dict = {}
+    parts: dict = {}
+    pending: dict = {}
+    truncated: dict = {}
+    todo = []
+    for kind, key, modnames, tier, pid in jobs:
+        cp = _cache_path(kind, key, tier)
+        if os.environ.get("PYVC_NO_CACHE") != "1" and os.path.exists(cp):
+            r = json.load(open(cp))
+            r["cached"] = True
+            results[(kind, key)] = r
+            continue
+        parts[(kind, key)] = []
+        pending[(kind, key)] = 1
+        todo.append((kind, key, modnames, tier, pid, {}))
+    meta = {(k, key): (modnames, tier, pid) for k, key, modnames, tier, pid in jobs}
+    if todo:
+        with mp.get_context("fork").Pool(max(1, nproc)) as pool:
+            inflight = [pool.apply_async(_path_worker, (t,)) for t in todo]
+            while inflight:
+                nxt = []
+                progressed = False
+                for ar in inflight:
+                    if not ar.ready():
+                        nxt.append(ar)
+                        continue
+                    progressed = True
+                    kind, key, part = ar.get()
+                    k = (kind, key)
+                    parts[k].append(part)
+                    pending[k] -= 1
+                    stop = part.get("status") == "crash" or (part.get("undecided_reason") or "").startswith(("UNSUPPORTED", "SPEC-ERROR", "recursion"))
+                    if not stop and k not in truncated:
+                        modnames, tier, pid = meta[k]
+                        for alt in part.get("alts", []):
+                            if len(parts[k]) + pending[k] >= V.MAX_PATHS:
+                                truncated[k] = f"path budget {V.MAX_PATHS} exceeded"
+                                break
+                            pending[k] += 1
+                            nxt.append(pool.apply_async(_path_worker, ((kind, key, modnames, tier, pid, alt),)))
+                    elif stop:
+                        truncated.setdefault(k, None)
+                inflight = nxt
+                if not progressed:
+                    time.sleep(0.02)
+    for k, ps in parts.items():
+        r = V.merge_parts(k[1] if k[0] == "fn" else "lemma:" + k[1], ps, truncated=truncated.get(k))
+        if r.get("status") in ("proved", "refuted") and not r.get("undecided_reason"):
+            cp = _cache_path(k[0], k[1], meta[k][1])
+            os.makedirs(os.path.dirname(cp), exist_ok=True)
+            tmp = cp + f".{os.getpid()}.tmp"
+            json.dump(r, open(tmp, "w"), default=str)
+            os.replace(tmp, cp)
+        results[k] = r
+    return [results[(kind, key)] for kind, key, *_ in jobs]
 
 
 def write_replay(pid, obname, payload) -> str:
